@@ -90,7 +90,7 @@ def main():
         if c["kind"] == "pair":
             chk.cov["pairs_by_relation"][c["rel"]] = chk.cov["pairs_by_relation"].get(c["rel"], 0) + 1
     chk.cov["distinct_nontrivial"] = len({(c["lk"], c.get("rk")) for c in cases if c["kind"] == "pair" and c["lk"] != c["rk"]})
-    chk.cov["rule"] = (f"all metamorphic pairs (bare=true, false=omitted, order, export-variant, unimock-feature) over option lists "
+    chk.cov["rule"] = (f"all metamorphic pairs (bare=true, false=omitted, order, export-variant, unimock-feature, explicit-export, explicit-unimock) over option lists "
                        f"of <= {3 if thorough else 2} distinct keys x 4 targets x 2 macro names x 2 feature settings, plus every single "
                        "option token (well- and ill-formed) on every target; non-trivial = the two attribute texts differ")
     chk.cov["exhaustive"] = True
